@@ -44,7 +44,16 @@ CLAIM = dict(
           "(iobuf_size, vcpu_base, p2p_dims, sdram_sys, rtr_copy, ...) and contents differ, with new console output, state "
           "changes and re-boots with other sizes in between; every result must be what the Lean specification says for "
           "that chip at that moment (the decoders' model is a function of that chip's memory only), so a value kept from "
-          "an earlier probe is reported as `probe-depends-on-earlier-probe` with the whole session as replay."),
+          "an earlier probe is reported as `probe-depends-on-earlier-probe` with the whole session as replay. CALLER "
+          "EDITS: in sessions, and in a probe / derive stream (get_system_info, get_machine, build_machine, "
+          "build_core_constraints, target lengths, membership, dead sets, on two controllers), the caller edits in place "
+          "the objects it was given where they are mutable (working_links sets, core_states lists, SystemInfo entries, "
+          "status register lists, P2P dictionaries, Machine.dead_links / dead_chips / chip_resource_exceptions / "
+          "chip_resources, constraint lists, target-length dictionaries) and then probes and derives again with the same "
+          "and a second controller; every later probe is judged by the same Lean oracles against the machine's state at "
+          "that moment and every later derivation against the Lean model of the (caller-owned, possibly edited) "
+          "description, so state shared between returned objects and later results - per controller or process-wide - is "
+          "reported as `probe-affected-by-caller-mutation` with the whole script incl. the edits as replay."),
     design="3/C14",
     note=("Proved relative to the Lean machine specification (layout of the info word, P2P packing, vcpu block, IOBUF "
           "header, sver reply) written from the layouts the code documents; only the bytes concerned are constrained "
@@ -75,7 +84,10 @@ RULE = ("cases = machine states: (system) P2P dimensions 1..12 x 1..12 and spars
         "SystemInfo objects built directly; (chip) single info replies over full field widths incl. malformed ones; "
         "(core) vcpu block, IOBUF chains of 0-4 blocks, router counters; (sver) both version encodings; (session) one "
         "controller, 2-4 chips with different system variables, 2-6 probes with console output / state changes / "
-        "re-boots between them. non-trivial = session probing >= 2 chips, "
+        "re-boots between them, the caller editing returned objects and repeating the probe on the same / a second "
+        "controller; (derive) a system-case machine, two controllers, a script of probes (get_system_info / "
+        "get_machine), derivations, edits of the description and of derived objects. non-trivial = session probing "
+        ">= 2 chips, derive case whose description has >= 2 chips and a busy core or dead chip, "
         "system/direct case with >= 2 described chips and a busy non-monitor core or a dead chip, chip case in the "
         "valid domain, core case with >= 1 block, sver case in the string encoding; distinct = distinct canonical JSON")
 
@@ -171,12 +183,9 @@ def si_json(si):
             "chips": [dict(ci_json(ci), x=int(xy[0]), y=int(xy[1])) for xy, ci in si.items()]}
 
 
-def derived_json(si):
-    """everything the code derives from a SystemInfo (set-valued results sorted)"""
-    from rig.place_and_route.utils import build_machine, build_core_constraints
+def machine_json(m):
+    """(canonical form of a place-and-route Machine, whether its resource dictionaries have the expected keys)"""
     from rig.place_and_route import Cores, SDRAM, SRAM
-    from rig.routing_table.utils import build_routing_table_target_lengths
-    m = build_machine(si)
     ok_shape = (set(m.chip_resources) == {Cores, SDRAM, SRAM} and
                 all(set(r) == {Cores, SDRAM, SRAM} for r in m.chip_resource_exceptions.values()))
     mj = {"width": int(m.width), "height": int(m.height),
@@ -186,8 +195,23 @@ def derived_json(si):
                                for (x, y), r in m.chip_resource_exceptions.items()),
           "dead_chips": sorted([int(x), int(y)] for x, y in m.dead_chips),
           "dead_links": sorted([int(x), int(y), int(l)] for x, y, l in m.dead_links)}
+    return mj, ok_shape
+
+
+def derived_json(si, keep=None):
+    """everything the code derives from a SystemInfo (set-valued results sorted); the objects themselves are
+    put into `keep` when given"""
+    from rig.place_and_route.utils import build_machine, build_core_constraints
+    from rig.place_and_route import Cores
+    from rig.routing_table.utils import build_routing_table_target_lengths
+    m = build_machine(si)
+    mj, ok_shape = machine_json(m)
     cons = []
-    for c in build_core_constraints(si):
+    constraints = build_core_constraints(si)
+    target_lengths = build_routing_table_target_lengths(si)
+    if keep is not None:
+        keep.update(machine=m, constraints=constraints, target_lengths=target_lengths)
+    for c in constraints:
         ok_shape = ok_shape and c.resource is Cores and c.reservation.step is None
         cons.append({"start": int(c.reservation.start), "stop": int(c.reservation.stop),
                      "chip": None if c.location is None else [int(c.location[0]), int(c.location[1])]})
@@ -198,8 +222,104 @@ def derived_json(si):
             "dead_links": sorted([int(x), int(y), int(l)] for x, y, l in si.dead_links()),
             "links": sorted([int(x), int(y), int(l)] for x, y, l in si.links()),
             "cores": [[int(x), int(y), int(p), int(s)] for x, y, p, s in si.cores()],
-            "target_lengths": sorted([int(x), int(y), int(n)] for (x, y), n in
-                                     build_routing_table_target_lengths(si).items())}
+            "target_lengths": sorted([int(x), int(y), int(n)] for (x, y), n in target_lengths.items())}
+
+
+# --------------------------------------------------------------------------- the caller edits what it got back
+def _try(log, what, fn):
+    """an edit of a returned object; results that are immutable are left alone (no alarm)"""
+    try:
+        fn()
+        log.append(what)
+    except (AttributeError, TypeError, KeyError, IndexError):
+        log.append(what + " [not possible: immutable]")
+
+
+def mutate_chipinfo(ci, r, log, tag):
+    from rig.links import Links
+    from rig.machine_control.consts import AppState
+    k = r.randrange(6)
+    links = sorted(int(l) for l in ci.working_links)
+    if k <= 1 and links:
+        l = r.choice(links)
+        _try(log, "%s.working_links.discard(%d)" % (tag, l), lambda: ci.working_links.discard(Links(l)))
+    elif k <= 2 and len(links) < 6:
+        l = r.choice([l for l in range(6) if l not in links])
+        _try(log, "%s.working_links.add(%d)" % (tag, l), lambda: ci.working_links.add(Links(l)))
+    elif k == 3:
+        _try(log, "%s.working_links.clear()" % tag, lambda: ci.working_links.clear())
+    elif k == 4 and len(ci.core_states):
+        p, v = r.randrange(len(ci.core_states)), r.choice([IDLE, RUN, 5])
+        _try(log, "%s.core_states[%d] = %d" % (tag, p, v), lambda: ci.core_states.__setitem__(p, AppState(v)))
+    elif len(ci.core_states):
+        _try(log, "%s.core_states.pop()" % tag, lambda: ci.core_states.pop())
+
+
+def mutate_sysinfo(si, r, log):
+    for _ in range(r.randrange(1, 4)):
+        keys = sorted(si)
+        k = r.randrange(6)
+        if k <= 3 and keys:
+            xy = r.choice(keys)
+            mutate_chipinfo(si[xy], r, log, "si[%r]" % (xy,))
+        elif k == 4 and len(keys) > 1:
+            xy = r.choice(keys)
+            _try(log, "del si[%r]" % (xy,), lambda: si.__delitem__(xy))
+        elif keys:
+            dead = sorted((x, y) for x in range(si.width) for y in range(si.height) if (x, y) not in si)
+            if dead:
+                src, dst = r.choice(keys), r.choice(dead)
+                _try(log, "si[%r] = copy of si[%r]" % (dst, src), lambda: si.__setitem__(dst, si[src]._replace(
+                    working_links=set(si[src].working_links), core_states=list(si[src].core_states))))
+
+
+def mutate_result(raw, op, seed):
+    """the caller edits, in place, the object a probe returned; returns the list of edits made"""
+    import random
+    r = random.Random(seed)
+    log = []
+    if op == "chip_info":
+        mutate_chipinfo(raw, r, log, "chip_info")
+        if r.random() < 0.5:
+            mutate_chipinfo(raw, r, log, "chip_info")
+    elif op == "system_info":
+        mutate_sysinfo(raw, r, log)
+    elif op == "status":
+        _try(log, "status.registers[2] ^= 1", lambda: raw.registers.__setitem__(2, raw.registers[2] ^ 1))
+        _try(log, "status.user_vars.pop()", lambda: raw.user_vars.pop())
+    elif op == "p2p":
+        keys = sorted(raw)
+        if keys:
+            xy = r.choice(keys)
+            _try(log, "del p2p[%r]" % (xy,), lambda: raw.__delitem__(xy))
+    return log
+
+
+def mutate_derived(keep, r, log):
+    """the caller edits the Machine / constraints / target lengths derived from a description"""
+    from rig.place_and_route import Cores
+    m = keep["machine"]
+    for _ in range(r.randrange(1, 4)):
+        k = r.randrange(7)
+        if k == 0 and m.dead_links:
+            e = sorted(m.dead_links)[r.randrange(len(m.dead_links))]
+            _try(log, "machine.dead_links.discard(%r)" % (tuple(map(int, e)),), lambda: m.dead_links.discard(e))
+        elif k == 1:
+            _try(log, "machine.dead_links.clear()", lambda: m.dead_links.clear())
+        elif k == 2:
+            xy = (r.randrange(m.width), r.randrange(m.height))
+            _try(log, "machine.dead_chips.add(%r)" % (xy,), lambda: m.dead_chips.add(xy))
+        elif k == 3 and m.chip_resource_exceptions:
+            xy = sorted(m.chip_resource_exceptions)[0]
+            _try(log, "del machine.chip_resource_exceptions[%r]" % (xy,), lambda: m.chip_resource_exceptions.__delitem__(xy))
+        elif k == 4:
+            _try(log, "machine.chip_resources[Cores] += 1",
+                 lambda: m.chip_resources.__setitem__(Cores, m.chip_resources[Cores] + 1))
+        elif k == 5 and keep["constraints"]:
+            _try(log, "constraints.pop()", lambda: keep["constraints"].pop())
+        elif keep["target_lengths"]:
+            xy = sorted(keep["target_lengths"])[0]
+            _try(log, "del target_lengths[%r]" % (xy,), lambda: keep["target_lengths"].__delitem__(xy))
 
 
 def member_queries(sj):
@@ -464,6 +584,7 @@ SESSION_OPS = ["iobuf_bytes", "iobuf", "status", "chip_info", "diag", "p2p", "sy
 SESSION_FAMILIES = [["iobuf_bytes", "iobuf"], ["iobuf_bytes", "iobuf"], ["status", "vcpu"], ["chip_info", "system_info"],
                     ["diag"], ["p2p", "system_info"], ["sv"], ["vcpu", "iobuf_bytes"]]
 SESSION_SIZES = [4, 16, 60, 64, 128, 252, 256, 1000]
+MUTABLE_OPS = ("chip_info", "system_info", "status", "p2p")     # probes that return mutable objects
 SV_NAMES = ["iobuf_size", "vcpu_base", "p2p_dims", "sdram_sys", "rtr_copy", "num_cpus", "sdram_base", "sysram_base",
             "sys_heap", "sdram_heap", "sysram_heap", "sys_bufs", "hop_table", "alloc_tag", "rtr_free", "app_data",
             "shm_buf", "p2p_addr", "eth_addr", "p2p_root", "unix_time", "cpu_clk", "board_info", "fr_copy"]
@@ -562,6 +683,27 @@ def gen_session(rng):
         elif st["op"] == "vcpu":
             st["name"] = rng.choice(sorted(VCPU_NAMES))
         steps.append(st)
+    if rng.random() < 0.5:
+        # the caller edits what a probe returned, then the same probe is made again (machine unchanged) by the
+        # same and / or a second controller
+        cand = [j for j, st in enumerate(steps) if st["op"] in MUTABLE_OPS]
+        if not cand:
+            j = rng.randrange(len(steps))
+            steps[j]["op"] = rng.choice(["chip_info", "chip_info", "system_info"])
+            steps[j].pop("name", None)
+            cand = [j]
+        j = rng.choice(cand)
+        steps[j]["mutate"] = rng.randrange(1 << 30)
+        again = []
+        for ctl in rng.choice([[0], [1], [0, 1], [1, 0]]):
+            st = {"set": [], "mut": None, "chip": steps[j]["chip"], "op": steps[j]["op"], "ctl": ctl}
+            if rng.random() < 0.3:
+                st["mutate"] = rng.randrange(1 << 30)
+            again.append(st)
+        steps[j + 1:j + 1] = again
+        for st in steps:
+            if "ctl" not in st and rng.random() < 0.25:
+                st["ctl"] = 1
     return {"kind": "session", "chips": chips, "steps": steps, "root": rng.randrange(n),
             "buf": rng.choice([256, 256, 128, 64, 512])}
 
@@ -624,6 +766,7 @@ def malformed_reply(rep, mal):
     return rep
 
 
+_TAINTED = [False]     # a caller-mutation leak was shown in this process: nothing later is a clean reference
 CORE_FIELDS = ("p", "vcpu_base", "iobuf_size", "status", "sw_top", "name16", "pad", "blocks", "diag")
 SESSION_KEYS = {"iobuf": "iobuf-wrong", "iobuf_bytes": "iobuf-wrong", "status": "status-wrong",
                 "chip_info": "chip-info-wrong", "diag": "router-counters-wrong", "p2p": "system-info-wrong",
@@ -664,55 +807,76 @@ def session_op(c, w, st, cur):
 
 
 def session_probe(mc, c, w, st, cur):
+    """(canonical result, the object the probe returned)"""
     ch = c["chips"][st["chip"]]
     x, y = ch["x"], ch["y"]
     p = ch["epochs"][cur[st["chip"]]]["p"]
     op = session_op(c, w, st, cur)
     if op == "iobuf_bytes":
-        return list(mc.get_iobuf_bytes(p, x, y))
+        raw = mc.get_iobuf_bytes(p, x, y)
+        return list(raw), raw
     if op == "iobuf":
-        return list(mc.get_iobuf(p, x, y).encode("utf-8"))
+        raw = mc.get_iobuf(p, x, y)
+        return list(raw.encode("utf-8")), raw
     if op == "status":
-        return status_json(mc.get_processor_status(p, x, y))
+        raw = mc.get_processor_status(p, x, y)
+        return status_json(raw), raw
     if op == "chip_info":
-        return ci_json(mc.get_chip_info(x, y))
+        raw = mc.get_chip_info(x, y)
+        return ci_json(raw), raw
     if op == "diag":
-        return [int(v) for v in mc.get_router_diagnostics(x, y)]
+        raw = mc.get_router_diagnostics(x, y)
+        return [int(v) for v in raw], raw
     if op == "p2p":
-        return sorted([int(k[0]), int(k[1]), int(v)] for k, v in mc.get_p2p_routing_table(x, y).items())
+        raw = mc.get_p2p_routing_table(x, y)
+        return sorted([int(k[0]), int(k[1]), int(v)] for k, v in raw.items()), raw
     if op == "system_info":
-        return si_json(mc.get_system_info(x, y))
+        raw = mc.get_system_info(x, y)
+        return si_json(raw), raw
     if op == "sv":
-        return int(mc.read_struct_field("sv", st["name"], x, y))
+        raw = mc.read_struct_field("sv", st["name"], x, y)
+        return int(raw), raw
     if op == "vcpu":
-        return int(mc.read_vcpu_struct_field(st["name"], x, y, p))
+        raw = mc.read_vcpu_struct_field(st["name"], x, y, p)
+        return int(raw), raw
     raise KeyError(op)
 
 
 def run_session(c, w, only=None):
-    """the session on ONE controller (or, with `only`, the machine brought to the state of step `only` and that
-    single probe made by a fresh controller); returns results and the epoch of every chip at each step"""
+    """the session on ONE controller (steps with "ctl": 1 on a second one), the caller editing the returned object
+    after steps that say so; or, with `only`, the machine brought to the state of step `only` and that single probe
+    made by a fresh controller.  Returns results, the epoch of every chip at each step, and the edits made"""
     root = c["chips"][c["root"]]
     m = ProbeMachine(root=(root["x"], root["y"]), buffer_size=c["buf"])
     cur = [0] * len(c["chips"])
     for ci in range(len(cur)):
         session_apply(m, c, w, ci, 0)
     net = simnet.Net(m.handle, lambda k, d: [(1, "ok")])
-    out, snaps = [], []
+    out, snaps, edits = [], [], []
     with simnet.installed(net):
-        mc = simmachine.make_controller(net, n_tries=3, timeout=2.0)
+        mcs = {}
         for k, st in enumerate(c["steps"]):
             for ci, ek in st["set"]:
                 session_apply(m, c, w, ci, ek)
                 cur[ci] = ek
             snaps.append(list(cur))
+            edits.append([])
             if only is None or only == k:
-                out.append(guard(lambda: session_probe(mc, c, w, st, cur)))
+                ctl = st.get("ctl", 0) if only is None else "fresh"
+                if ctl not in mcs:
+                    mcs[ctl] = simmachine.make_controller(net, n_tries=3, timeout=2.0)
+                res = guard(lambda: session_probe(mcs[ctl], c, w, st, cur))
+                if "ok" in res:
+                    canon, raw = res["ok"]
+                    res = {"ok": canon}
+                    if only is None and st.get("mutate") is not None:
+                        edits[-1] = mutate_result(raw, session_op(c, w, st, cur), st["mutate"])
+                out.append(res)
             else:
                 out.append(None)
             if only == k:
                 break
-    return out, snaps
+    return out, snaps, edits
 
 
 def session_reqs(L, c, w, k, cur, impl):
@@ -786,6 +950,11 @@ def judge_session(ctx, c, w):
         if not ok and first_bad is None:
             first_bad = k
     ctx.tag("session_steps_%d" % len(c["steps"]), "session_chips_%d" % len(probed))
+    for k, st in enumerate(c["steps"]):
+        if w["edits"][k]:
+            ctx.tag("session_edit_" + session_op(c, w, st, w["snaps"][k]))
+    if len(set(st.get("ctl", 0) for st in c["steps"])) > 1:
+        ctx.tag("session_two_controllers")
     if first_bad is not None:
         k = first_bad
         st = c["steps"][k]
@@ -793,26 +962,223 @@ def judge_session(ctx, c, w):
         op = session_op(c, w, st, cur)
         impl = w["impl"][k]
         ch = c["chips"][st["chip"]]
-        # the same probe by a fresh controller on the machine in the same state
-        fresh = run_session(c, w, only=k)[0][k]
-        _, oracle, okey = session_reqs(L, c, w, k, cur, fresh)
-        fresh_ok = "ok" in fresh and oracle is not None and session_verdict(ctx.lean([oracle])[0], okey)
         before = ["%s(%d,%d)" % (session_op(c, w, s2, w["snaps"][j]), c["chips"][s2["chip"]]["x"],
                                  c["chips"][s2["chip"]]["y"]) for j, s2 in enumerate(c["steps"][:k])]
-        what = "step %d: %s on chip (%d, %d) returned %.300r" % (k, op, ch["x"], ch["y"], impl)
-        if fresh_ok:
-            ctx.violation("probe-depends-on-earlier-probe",
-                          "%s - not the machine's values for that chip at that moment - after the probes %s on the same "
-                          "controller; a fresh controller making this single probe on the same machine state returns "
-                          "the machine's values %.200r" % (what, before, fresh), c)
-        elif "err" in impl:
-            ctx.violation("unexpected-error", what, c)
+        what = "step %d: %s on chip (%d, %d) by controller %d returned %.300r" % (
+            k, op, ch["x"], ch["y"], st.get("ctl", 0), impl)
+        # the identical probe (same chip, machine in the same state) made earlier in this session was right, and the
+        # caller edited a returned object in between?
+        same = [j for j in range(k) if c["steps"][j]["chip"] == st["chip"] and w["snaps"][j] == cur and
+                session_op(c, w, c["steps"][j], cur) == op and c["steps"][j].get("name") == st.get("name")]
+        edits = [e for j in range(same[-1] if same else k, k) for e in w["edits"][j]]
+        if same and edits:
+            _TAINTED[0] = True
+            ctx.violation("probe-affected-by-caller-mutation",
+                          "after the caller edited objects that earlier probes had returned (%s), %s - not the machine's "
+                          "values; the identical probe at step %d (machine unchanged since) returned the machine's "
+                          "values %.200r" % ("; ".join(edits), what, same[-1], w["impl"][same[-1]]), c)
+        elif _TAINTED[0]:
+            # this process already showed that an edit by the caller leaks into later probes; a fresh controller
+            # or a fresh session is no longer a clean reference
+            ctx.violation("probe-affected-by-caller-mutation", what + " - after an earlier case of this run showed "
+                          "that edits of returned objects leak into later probes", c)
         else:
-            ctx.violation(SESSION_KEYS[op], what + " - not the machine's values", c)
+            # the same probe by a fresh controller on the machine in the same state
+            fresh = run_session(c, w, only=k)[0][k]
+            _, oracle, okey = session_reqs(L, c, w, k, cur, fresh)
+            fresh_ok = "ok" in fresh and oracle is not None and session_verdict(ctx.lean([oracle])[0], okey)
+            if fresh_ok:
+                ctx.violation("probe-depends-on-earlier-probe",
+                              "%s - not the machine's values for that chip at that moment - after the probes %s on the "
+                              "same controller; a fresh controller making this single probe on the same machine state "
+                              "returns the machine's values %.200r" % (what, before, fresh), c)
+            elif "err" in impl:
+                ctx.violation("unexpected-error", what, c)
+            else:
+                ctx.violation(SESSION_KEYS[op], what + " - not the machine's values", c)
     return len(probed) >= 2
 
 
+# --------------------------------------------------------------------------- probe / derive / edit / probe again
+def gen_derive(rng):
+    """a machine, two controllers, and a script: probe (get_system_info or get_machine), derive (build_machine,
+    build_core_constraints, target lengths, membership, dead sets), the caller editing the description or the
+    derived objects in place, deriving and probing again"""
+    c = gen_system(rng, False)
+    # chips that do not answer are simply absent from "chips" here
+    c["kind"], c["silent"], c["rc_chips"] = "derive", [], []
+    script = [{"act": "probe", "ctl": 0, "via": "system_info"}]
+    for _ in range(rng.randrange(3, 8)):
+        a = rng.choice(["derive", "derive", "edit_si", "edit_si", "edit_derived", "probe", "probe"])
+        if a == "probe":
+            script.append({"act": "probe", "ctl": rng.randrange(2), "via": rng.choice(["system_info", "system_info", "machine"])})
+        elif a == "derive":
+            script.append({"act": "derive"})
+        else:
+            script.append({"act": a, "seed": rng.randrange(1 << 30)})
+            if a == "edit_derived" or rng.random() < 0.5:
+                script.append({"act": "derive"})
+    ctls = rng.choice([[0, 1], [1, 0], [0], [1]])
+    script += [{"act": "probe", "ctl": k, "via": rng.choice(["system_info", "system_info", "machine"])} for k in ctls]
+    script.append({"act": "derive"})
+    c["script"] = script
+    return c
+
+
+def run_derive(c, w):
+    """run the script on the real code; one record per action"""
+    import random
+    root = tuple(c["root"])
+    m = ProbeMachine(root=root, buffer_size=c["buf"])
+    for addr, data in w["p2p_mem"]["mem"]:
+        m.poke(root[0], root[1], addr, bytes(data))
+    for n, ch in enumerate(c["chips"]):
+        m.info[(ch["x"], ch["y"])] = w["replies"][n]
+    net = simnet.Net(m.handle, lambda k, d: [(1, "ok")])
+    recs = []
+    si, keep = None, None
+    with simnet.installed(net):
+        mcs = {}
+        for a in c["script"]:
+            rec = {"act": a["act"]}
+            if a["act"] == "probe":
+                if a["ctl"] not in mcs:
+                    mcs[a["ctl"]] = simmachine.make_controller(net, n_tries=3, timeout=2.0)
+                mc = mcs[a["ctl"]]
+                if a["via"] == "machine":
+                    import warnings
+                    with warnings.catch_warnings():
+                        warnings.simplefilter("ignore")
+                        res = guard(lambda: mc.get_machine(*root) if c["explicit_start"] else mc.get_machine())
+                    if "ok" in res:
+                        keep = {"machine": res["ok"], "constraints": [], "target_lengths": {}}
+                        mj, shape = machine_json(res["ok"])
+                        res = {"ok": mj, "shape_ok": shape}
+                else:
+                    res = guard(lambda: mc.get_system_info(*root) if c["explicit_start"] else mc.get_system_info())
+                    if "ok" in res:
+                        si = res["ok"]
+                        res = {"ok": si_json(si)}
+                rec.update(res, via=a["via"], ctl=a["ctl"])
+            elif si is None:
+                rec["act"] = "skip"         # nothing was ever probed successfully (already reported)
+            elif a["act"] == "derive":
+                keep = {}
+                rec.update(sysinfo=si_json(si), derived=derived_json(si, keep), member_ok=membership_ok(si, c["chips"]))
+            elif a["act"] == "edit_si":
+                rec["edits"] = []
+                mutate_sysinfo(si, random.Random(a["seed"]), rec["edits"])
+            else:
+                rec["edits"] = []
+                if keep:
+                    mutate_derived(keep, random.Random(a["seed"]), rec["edits"])
+            recs.append(rec)
+    return recs
+
+
+def eval_derive(ctx, cases):
+    L = lambda op, **kw: dict(kw, suite="c14", op=op)  # noqa: E731
+    # the Lean machine specification produces the bytes
+    reqs, slots = [], []
+    for i, c in enumerate(cases):
+        reqs.append(L("spec_p2p", **machine_state_json(c))); slots.append((i, "p2p_mem"))
+        for n, ch in enumerate(c["chips"]):
+            reqs.append(L("spec_info", **state_only(ch))); slots.append((i, ("reply", n)))
+    work = [dict(replies={}) for _ in cases]
+    for (i, slot), r in zip(slots, ctx.lean(reqs)):
+        if isinstance(slot, tuple):
+            work[i]["replies"][slot[1]] = r
+        else:
+            work[i][slot] = r
+    # the Lean model of get_system_info on those bytes: what every probe must return
+    reqs = [L("system_info", mem=w["p2p_mem"]["mem"],
+              replies=[dict(w["replies"][n], x=ch["x"], y=ch["y"]) for n, ch in enumerate(c["chips"])])
+            for c, w in zip(cases, work)]
+    for w, r in zip(work, ctx.lean(reqs)):
+        w["model"] = r
+    # the real code runs the scripts; the Lean model / oracles judge every step
+    reqs, slots = [], []
+    for i, (c, w) in enumerate(zip(cases, work)):
+        w["recs"] = run_derive(c, w)
+        want_sj = w["model"]["ok"]["sysinfo"] if "ok" in w["model"] else None
+        for k, rec in enumerate(w["recs"]):
+            ctx.traces += 1
+            if rec["act"] == "probe" and "ok" in rec:
+                if rec["via"] == "system_info":
+                    reqs.append(L("sysinfo_ok", state=machine_state_json(c), got=rec["ok"])); slots.append((i, k, "oracle"))
+                elif want_sj is not None:
+                    reqs.append(L("machine_ok", sysinfo=want_sj, got=rec["ok"])); slots.append((i, k, "oracle"))
+                    reqs.append(L("build_machine", **want_sj)); slots.append((i, k, "model_machine"))
+            elif rec["act"] == "derive":
+                sub = []
+                add_derived_reqs(L, reqs, sub, (i, k), rec["sysinfo"], rec["derived"])
+                slots += [(i, k, name) for _, name in sub]
+    for (i, k, name), r in zip(slots, ctx.lean(reqs)):
+        work[i]["recs"][k][name] = r
+    for c, w in zip(cases, work):
+        judge_derive(ctx, c, w)
+
+
+def judge_derive(ctx, c, w):
+    ctx.tag("kind_derive")
+    edits = []          # edits by the caller since the last step that was judged right
+    right_before = False
+    nontriv = False
+    for k, rec in enumerate(w["recs"]):
+        n0 = len(ctx.concrete)
+        if rec["act"] == "skip":
+            continue
+        if rec["act"] in ("edit_si", "edit_derived"):
+            edits += rec["edits"]
+            ctx.tag("derive_" + rec["act"])
+            continue
+        if rec["act"] == "probe":
+            ctx.tag("derive_probe_" + rec["via"], "derive_ctl_%d" % rec["ctl"])
+            what = "step %d: %s by controller %d returned %.400r" % (
+                k, "get_system_info" if rec["via"] == "system_info" else "get_machine", rec["ctl"],
+                rec.get("ok", rec.get("err")))
+            if rec["via"] == "system_info":
+                model = {"ok": w["model"]["ok"]["sysinfo"]} if "ok" in w["model"] else w["model"]
+                cmp(ctx, "derive.system_info", {k2: rec[k2] for k2 in ("ok", "err") if k2 in rec}, model, c)
+            elif "ok" in rec and "model_machine" in rec:
+                cmp(ctx, "derive.get_machine", rec["ok"], sort_machine(rec["model_machine"]), c)
+            if "err" in rec:
+                ctx.violation("unexpected-error", what, c)
+            elif rec.get("oracle") is not True or rec.get("shape_ok") is False:
+                ctx.violation("system-info-wrong" if rec["via"] == "system_info" else "machine-model-wrong",
+                              what + " - not the machine's chips, links and quantities", c)
+        else:
+            ws = {"derived": rec["derived"], "impl": {"ok": {"sysinfo": rec["sysinfo"]}}, "member_ok": rec["member_ok"],
+                  "model_machine": rec["model_machine"], "model_constraints": rec["model_constraints"],
+                  "model_member": rec["model_member"], "oracle_dead": rec["oracle_dead"],
+                  "oracle_machine": rec["oracle_machine"], "oracle_res": rec["oracle_res"]}
+            nontriv = judge_derived(ctx, c, ws, c) or nontriv
+        new = ctx.concrete[n0:]
+        if new and (edits and right_before or _TAINTED[0]):
+            # right until the caller edited objects it had been given, wrong afterwards
+            del ctx.concrete[n0:]
+            _TAINTED[0] = True
+            key0, what0, _ = new[0]
+            ctx.violation("probe-affected-by-caller-mutation",
+                          "after the caller edited objects it had been given (%s), %s [%s]; every probe / derivation "
+                          "before these edits was right" % ("; ".join(edits) or "in an earlier case of this run",
+                                                             what0, key0), c)
+        if not new:
+            right_before = True
+            edits = []
+    ctx.case(c, nontriv)
+
+
 def eval_cases(ctx, cases):
+    derive = [c for c in cases if c["kind"] == "derive"]
+    cases = [c for c in cases if c["kind"] != "derive"]
+    if cases:
+        eval_plain_cases(ctx, cases)
+    if derive:
+        eval_derive(ctx, derive)
+
+
+def eval_plain_cases(ctx, cases):
     L = lambda op, **kw: dict(kw, suite="c14", op=op)  # noqa: E731
     # ---- stage 1: the Lean machine specification produces the bytes ------------------------
     reqs, slots = [], []
@@ -852,7 +1218,7 @@ def eval_cases(ctx, cases):
     for i, (c, w) in enumerate(zip(cases, work)):
         k = c["kind"]
         if k == "session":
-            w["impl"], w["snaps"] = run_session(c, w)
+            w["impl"], w["snaps"], w["edits"] = run_session(c, w)
             for kk in range(len(c["steps"])):
                 model, oracle, okey = session_reqs(L, c, w, kk, w["snaps"][kk], w["impl"][kk])
                 reqs.append(model); slots.append((i, ("sess", kk, "model")))
@@ -1083,7 +1449,7 @@ def judge(ctx, c, w):
     ctx.case(desc, nontriv)
 
 
-def gen_cases(ctx, n_sys, n_big, n_direct, n_chip, n_core, n_sver, n_session=0):
+def gen_cases(ctx, n_sys, n_big, n_direct, n_chip, n_core, n_sver, n_session=0, n_derive=0):
     rng = ctx.rng
     cases = []
     cases += [gen_system(rng, False) for _ in range(n_sys)]
@@ -1093,10 +1459,12 @@ def gen_cases(ctx, n_sys, n_big, n_direct, n_chip, n_core, n_sver, n_session=0):
     cases += [gen_core(rng) for _ in range(n_core)]
     cases += [gen_sver(rng) for _ in range(n_sver)]
     cases += [gen_session(rng) for _ in range(n_session)]
+    cases += [gen_derive(rng) for _ in range(n_derive)]
     return cases
 
 
 def run(ctx):
+    _TAINTED[0] = False
     ctx.extra["rule"] = RULE
     ctx.assumptions += [
         "machine specification (Lean): info word layout, P2P packing (8 entries of 3 bits per word, 32 words per column), "
@@ -1107,13 +1475,14 @@ def run(ctx):
         "at least one chip is listed in the probed P2P table (otherwise the code raises ValueError from max())"]
     k = 4 if ctx.extended else 1
     if ctx.quick:
-        cases = gen_cases(ctx, 220 * k, 6 * k, 150 * k, 400 * k, 150 * k, 200 * k, 250 * k)
+        cases = gen_cases(ctx, 220 * k, 6 * k, 150 * k, 400 * k, 150 * k, 200 * k, 250 * k, 150 * k)
     else:
-        cases = gen_cases(ctx, 4000 * k, 60 * k, 3000 * k, 8000 * k, 3000 * k, 4000 * k, 5000 * k)
+        cases = gen_cases(ctx, 4000 * k, 60 * k, 3000 * k, 8000 * k, 3000 * k, 4000 * k, 5000 * k, 3000 * k)
     for i in range(0, len(cases), 400):
         eval_cases(ctx, cases[i:i + 400])
 
 
 def replay(ctx, payload):
+    _TAINTED[0] = False
     ctx.extra["rule"] = RULE
     eval_cases(ctx, [payload["case"]])
